@@ -23,7 +23,7 @@ PROPS = {
                 assumptions=KANI_ASSUME,
                 not_under_contract=['regex engine (fancy_regex) - trusted', 'string order beyond the bounded unit', 'list/map equality beyond the bounded unit'],
                 explanation=''),
-    'C02': dict(level='proof', level_text='Verus proves, for all inputs and all lengths, that every record closed by rule/when/file/named-clause/clause evaluation carries the status returned to the caller and that this status is the documented function of the children statuses (record-tree ghost model)', level_note='assumed: EvalContext trait contract, CNF combinator contract (bounded Kani unit), query engine; termination not proved', vgroups=['eval', 'eval_disp'], kunits=[], assumptions=EVAL_ASSUME,
+    'C02': dict(level='proof', level_text='Verus proves, for all inputs and all lengths, that every record closed by rule/when/file/named-clause/clause evaluation carries the status returned to the caller and that this status is the documented function of the children statuses (record-tree ghost model)', level_note='assumed: EvalContext trait contract, CNF combinator contract (bounded Kani unit), query engine; termination not proved', vgroups=['eval', 'eval_disp'], kunits=['U-cnf'], assumptions=EVAL_ASSUME,
                 not_under_contract=['query_retrieval_with_converter (Filter records)', 'RootScope::rule_status', 'RecordTracker (bounded only)'],
                 explanation=''),
     'C03': dict(level='proof', level_text='Verus proves that the polarity reaching the per-value layer is operator-not XOR prefix-not on both the unary and the binary path of the real eval_guard_access_clause, and the named-rule negation table', level_note='assumed: unary_operation/binary_operation depend on the polarity bit as contracted (bounded Kani units)', vgroups=['eval'], kunits=[], assumptions=EVAL_ASSUME,
